@@ -31,6 +31,7 @@ type Prog struct {
 	fieldNm  map[*types.Var]string
 	fieldOf  map[string]*types.Var
 	built    map[string]bool
+	roots    []*packages.Package
 }
 
 // LoadOpts selects what to load.
@@ -118,6 +119,7 @@ func Load(o LoadOpts) (*Prog, error) {
 			}
 		}
 	}
+	p.roots = pkgs
 	for _, pk := range pkgs {
 		visit(pk)
 	}
